@@ -316,6 +316,9 @@ def one_seed(slug):
             outs.append((c, rc))
             if rc == 1:
                 return ('KILLED', slug, (prop, 'seeded/' + slug, 'patch.diff'), 'caught by %s' % c)
+        if meta.get('expect') in ('not-caught', 'exit-2'):
+            # a kept change this family, as built, does not decide (recorded in DESIGN 8.5): listed, not a failure of the self-test
+            return ('UNDETECTED', slug, (prop, 'seeded/' + slug, 'patch.diff'), 'recorded as %s: %s' % (meta['expect'], outs))
         return ('MISSED', slug, (prop, 'seeded/' + slug, 'patch.diff'), 'no check fired: %s' % outs)
     finally:
         shutil.rmtree(d, ignore_errors=True)
@@ -408,6 +411,8 @@ def run_for(prop=None, verbose=True):
               % (prop or 'all', killed, quiet, len(unrec), len(stale), len(bad)))
         for r in unrec:
             print('  NOT-ANALYSABLE %s %s' % (r[2][0], r[2][1]))
+        for r in [x for x in results if x[0] == 'UNDETECTED']:
+            print('  UNDETECTED %s %s: %s' % (r[2][0], r[2][1], r[3][:90]))
         for r in stale:
             print('  STALE %s %s: %s' % (r[2][0], r[2][1], r[2][2][:60]))
         for r in bad:
